@@ -1,0 +1,39 @@
+//go:build verif
+
+package name
+
+// Hooks for the C14 verification harness (add-only, read-only accessors and
+// thin wrappers around unexported functions).
+
+// VerifC14UTF16Encode exposes utf16Encode.
+func VerifC14UTF16Encode(s string) []byte { return utf16Encode(s) }
+
+// VerifC14UTF16Decode exposes utf16Decode.
+func VerifC14UTF16Decode(b []byte) string { return utf16Decode(b) }
+
+// VerifC14AppleBCP returns a copy of the Macintosh language table.
+func VerifC14AppleBCP() map[uint16]string {
+	res := make(map[uint16]string, len(appleBCP))
+	for k, v := range appleBCP {
+		res[k] = v
+	}
+	return res
+}
+
+// VerifC14MsBCP returns a copy of the Windows language table.
+func VerifC14MsBCP() map[uint16]string {
+	res := make(map[uint16]string, len(msBCP))
+	for k, v := range msBCP {
+		res[k] = v
+	}
+	return res
+}
+
+// VerifC14Set exposes (*Table).set.
+func VerifC14Set(t *Table, id ID, val string) { t.set(id, val) }
+
+// VerifC14Get exposes (*Table).get.
+func VerifC14Get(t *Table, id ID) string { return t.get(id) }
+
+// VerifC14Keys exposes (*Table).keys.
+func VerifC14Keys(t *Table) []ID { return t.keys() }
